@@ -136,13 +136,30 @@ struct AllocSeam {
     long count = 0;          // allocations seen while armed
     bool fired = false;
     long live_blocks();      // currently live libcif-domain blocks
-    void arm(long fail_index) { armed = true; fail_at = fail_index; count = 0; fired = false; }
+    void arm(long fail_index) { armed = true; fail_at = fail_index; count = 0; fired = false; n_fire_ra = 0; fire_exec_sql[0] = 0; }
     void disarm() { armed = false; fail_at = 0; }
+    void *fire_ra[24]; int n_fire_ra = 0;          // call chain of the last injected failure
+    char fire_exec_sql[40] = {0};                  // the SQL text, if that failure hit inside a libcif sqlite3_exec() (transaction control)
+    std::string describe_fire();                   // (slow; violation path only)
     std::string describe_live(size_t max = 4);   // addresses -> symbolised allocation sites (slow; violation path only)
 };
 extern AllocSeam g_lalloc;   // libcif heap
 extern AllocSeam g_salloc;   // SQLite heap (sqlite3_mem_methods wrapper)
 long sqlite_live_blocks();
+// libcif's calls of sqlite3_exec() are routed here (objcopy): the simulator knows which statement text is being executed
+extern const char *g_exec_sql;
+// Transaction monitor shared by the fault-enumeration workloads (C17): after an attempt during which an allocation failed,
+// no transaction may be left open behind the caller's back.  One recognised, recorded design limitation is handled apart:
+// when the failed allocation hit the compilation of the library's own ROLLBACK / RELEASE / ... statement, the violation is
+// deferred to the end of the run (signature tx_control_oom:<statement>) and the harness rolls back itself so that the run
+// can go on and still find other violations.
+struct sqlite3;
+struct TxMonitor {
+    std::unique_ptr<Violation> deferred;
+    // db: the connection of a managed CIF on which no iterator is open
+    void check(const std::string &prop, const char *fn, int rc, sqlite3 *db, const char *which, bool sq, long k);
+    void finish() { if (deferred) { Violation v = *deferred; deferred.reset(); throw v; } }
+};
 static inline void lib_free(void *p) { cifsim_free(p); }
 
 // (2) simulated disk (sqlite3_vfs "cifsim"), page-cache knob, lookaside knob
